@@ -330,4 +330,91 @@ func runC16(c *runCtx) {
 	for i := 0; i < c.n(300, 20000); i++ {
 		check(g.Statement(), nil, false, "random", false)
 	}
+	// the raw-text scan (ScanSQL): the findings of a text are kept under re-layout — blanks of any kind and number between
+	// words and before an opening parenthesis, and letter case — and its counters equal its list
+	{
+		texts := []string{
+			"SELECT * FROM users WHERE id = 1 OR SLEEP(5)", "SELECT * FROM users WHERE id = 1 AND pg_sleep(10) IS NULL", "SELECT BENCHMARK(1000000, MD5('a'))",
+			"SELECT LOAD_FILE('/etc/passwd')", "SELECT a FROM t INTO OUTFILE '/tmp/x'", "SELECT a FROM t INTO DUMPFILE '/tmp/x'", "EXEC xp_cmdshell('dir')",
+			"SELECT a FROM t WHERE id = 1 OR 1=1", "SELECT a FROM t WHERE name = '' OR 'a'='a'", "SELECT a FROM t UNION SELECT NULL, NULL", "SELECT a FROM t UNION ALL SELECT table_name FROM information_schema.tables",
+			"SELECT a FROM t WHERE id = 1; DROP TABLE users", "SELECT a FROM t WHERE id = 1 -- AND pw = 'x'", "SELECT a FROM t WHERE id = 1 /* x */ OR 1=1", "SELECT WAITFOR DELAY '0:0:5'", "SELECT a FROM t WHERE id = 1 OR SLEEP(5) OR BENCHMARK(10, 1)",
+		}
+		relayouts := []struct {
+			name string
+			f    func(string) string
+		}{
+			{"blank-before-paren", func(t string) string { return strings.ReplaceAll(t, "(", " (") }},
+			{"tab-before-paren", func(t string) string { return strings.ReplaceAll(t, "(", "\t(") }},
+			{"newline-before-paren", func(t string) string { return strings.ReplaceAll(t, "(", "\n(") }},
+			{"double-blanks", func(t string) string { return blanksOutsideQuotes(t, "  ") }},
+			{"tabs", func(t string) string { return blanksOutsideQuotes(t, "\t") }},
+			{"newlines", func(t string) string { return blanksOutsideQuotes(t, "\n") }},
+			{"mixed-blanks", func(t string) string { return blanksOutsideQuotes(t, " \t\n ") }},
+			{"lower-case", func(t string) string { return lowerOutsideQuotes(t) }},
+			{"upper-case", func(t string) string { return upperOutsideQuotes(t) }},
+		}
+		for _, t := range texts {
+			baseR := security.NewScanner().ScanSQL(t)
+			base := findingsKey(baseR)
+			res.count("scansql|"+t, true)
+			if len(base) == 0 {
+				res.stat("scansql-canonical-unflagged")
+				continue
+			}
+			if baseR.TotalCount != len(baseR.Findings) || baseR.CriticalCount+baseR.HighCount+baseR.MediumCount+baseR.LowCount != len(baseR.Findings) {
+				res.fail("scansql-counts", "the counters of a ScanSQL result do not equal its findings", map[string]any{"text": t}, nil)
+			}
+			for _, rl := range relayouts {
+				v := rl.f(t)
+				if v == t {
+					continue
+				}
+				got := findingsKey(security.NewScanner().ScanSQL(v))
+				res.count("scansql|"+rl.name+"|"+v, true)
+				if !containsMultiset(got, base) {
+					res.fail("scansql-layout:"+rl.name, "a finding of the raw-text scan disappears when only blanks or letter case change", map[string]any{"text": t, "relayout": v}, map[string]any{"canonical": base, "relayout_findings": got})
+				}
+			}
+		}
+	}
 }
+
+func containsMultiset(got, want []string) bool {
+	m := map[string]int{}
+	for _, g := range got {
+		m[g]++
+	}
+	for _, w := range want {
+		if m[w] == 0 {
+			return false
+		}
+		m[w]--
+	}
+	return true
+}
+
+func mapOutsideQuotes(t string, f func(string) string) string {
+	var b strings.Builder
+	inq := false
+	start := 0
+	for i := 0; i < len(t); i++ {
+		if t[i] == '\'' {
+			if !inq {
+				b.WriteString(f(t[start:i]))
+				start = i
+			} else {
+				b.WriteString(t[start : i+1])
+				start = i + 1
+			}
+			inq = !inq
+		}
+	}
+	if inq {
+		b.WriteString(t[start:])
+	} else {
+		b.WriteString(f(t[start:]))
+	}
+	return b.String()
+}
+func lowerOutsideQuotes(t string) string { return mapOutsideQuotes(t, strings.ToLower) }
+func upperOutsideQuotes(t string) string { return mapOutsideQuotes(t, strings.ToUpper) }
